@@ -270,7 +270,9 @@ def check_laws(c, steps):
     flags = dict(double=False)
 
     def add(law, i, view, ver, detail):
-        key = (law, view, ver)
+        # one report per law and view group of a history (the groups are what the known classes distinguish)
+        grp = "i12_all" if view == "i12_all" else ("rev" if view.split("_")[0] in ("i1", "i12") else "other")
+        key = (law, grp, ver)
         if key in seen:
             return
         seen.add(key)
@@ -510,6 +512,25 @@ def gen_histories(tier, seed, prop="C10"):
     for _ in range(nt):
         cases.append(rand_hist_ter(rng, "M"))
     return cases
+
+
+def oracle_crosscheck(seed, n=150):
+    """the python closure oracle against Closure.eqv (proved equal to the explicit rules) on random pair lists"""
+    rng = lib.rng_for(seed, "C10", "oracle")
+    lists = []
+    for _ in range(n):
+        d = rng.randint(2, 6)
+        lists.append((d, [(rng.randrange(d), rng.randrange(d)) for _ in range(rng.randint(0, 7))]))
+    prelude = PRELUDE.replace("Byods.EqRelModel.", "Byods.EqRelModel.\nFrom AV Require Import Byods.Closure.")
+    exprs = ["mask2 %d (eqv [%s])" % (d + 1, "; ".join("(%d, %d)" % p for p in l)) for d, l in lists]
+    vals = lib.coq_eval("c10or", prelude, exprs, per_shard=80)
+    bad = []
+    for (d, l), v in zip(lists, vals):
+        if not (closure_mask(l, d + 1) == closure_naive(l, d + 1) == v):
+            bad.append((l, closure_mask(l, d + 1), closure_naive(l, d + 1), v))
+    if bad:
+        raise lib.Infra("closure oracle disagrees with Closure.eqv: %s" % bad[:2])
+    return len(lists)
 
 
 # ------------------------------------------------------------------ running
